@@ -579,11 +579,11 @@ func (m *Mux) serveGRPC(w http.ResponseWriter, r *http.Request) {
 		h.Set("Grpc-Message", encodeGrpcMessage(m))
 	}
 	if p := st.Proto(); p != nil && len(p.Details) > 0 {
-		stBytes, err := proto.Marshal(p)
-		if err != nil {
-			panic(err)
+		// Details that cannot be marshalled are dropped, the code and
+		// message are already set.
+		if stBytes, err := proto.Marshal(p); err == nil {
+			h.Set("Grpc-Status-Details-Bin", encodeBinHeader(stBytes))
 		}
-		h.Set("Grpc-Status-Details-Bin", encodeBinHeader(stBytes))
 	}
 	setOutgoingHeader(h, stream.trailer)
 
